@@ -699,10 +699,14 @@ class Exec(object):
         else:
             raise Unsupported("assignment target %s" % type(t).__name__)
 
-    def note_write(self, o):
+    def note_write(self, o, stored=None):
         origin = getattr(o, "origin", None)
         if origin is not None:
             self.ctx.writes.append(origin)
+            if stored is not None and origin.startswith("module:"):
+                # a value stored into module state is module state from now on (it escapes the call)
+                from .engine import taint
+                taint(stored, origin + "[stored]")
 
     def setitem(self, o, idx, v, line):
         if isinstance(o, PList):
@@ -722,7 +726,7 @@ class Exec(object):
                 o.items = [self.merge(pos == i, v, o.items[i]) for i in range(n)]
                 return
         if isinstance(o, PDict):
-            self.note_write(o)
+            self.note_write(o, stored=v)
             o.d[self.dict_key(idx)] = v
             return
         if isinstance(o, Obj):
@@ -1725,6 +1729,20 @@ class Exec(object):
                 for st in range(0, len(container) - n + 1):
                     opts.append(z3.And([item.at(i) == ord(container[st + i]) for i in range(n)]))
                 return z3.Or(opts) if opts else False
+        if isinstance(container, SStr) and isinstance(item, str) and len(item) == 1 and container.known_len() is None:
+            k = ord(item)
+            reg = self.ctx.reg
+            if k == 35:
+                return reg.cnt("sharp", container.arr, container.off, container.off + container.length) > 0
+            if k == 98:
+                return reg.cnt("flat", container.arr, container.off, container.off + container.length) > 0
+            # any other character: absent when the first character differs and the rest holds only '#'/'b'
+            absent = z3.Or(container.length == 0,
+                           z3.And(container.at(0) != k,
+                                  reg.cnt("other", container.arr, container.off + 1, container.off + container.length) == 0))
+            if not self.frame.spec and self.ctx.branch(absent):
+                return False
+            raise Unsupported("substring test in a string that may contain the character")
         if isinstance(container, SStr) and is_strlike(item):
             it = as_sstr(item)
             if it.known_len() == 1 and container.known_len() is not None:
